@@ -40,7 +40,12 @@ func request(content string) *gpb.SubscribeRequest {
 	}}}
 }
 
-func universe(three bool) []loadOp {
+// universe: tnames are the names of the (up to three) targets; naming a target
+// like a request ("r1") puts the two name spaces of a configuration in contact.
+func universe(three bool, tnames ...string) []loadOp {
+	if len(tnames) == 0 {
+		tnames = []string{"t1", "t2", "t3"}
+	}
 	var ops []loadOp
 	reqOpts := []string{"", "A", "B"}
 	tgtOpts := []string{"", "x|r1", "x|r2", "y|r1", "y|r2"}
@@ -63,7 +68,7 @@ func universe(three bool) []loadOp {
 							if r2 != "" {
 								c.Request["r2"] = request(r2)
 							}
-							for n, t := range map[string]string{"t1": t1, "t2": t2, "t3": t3} {
+							for n, t := range map[string]string{tnames[0]: t1, tnames[1]: t2, tnames[2]: t3} {
 								if t != "" {
 									p := strings.Split(t, "|")
 									c.Target[n] = &tpb.Target{Addresses: []string{p[0]}, Request: p[1], Meta: map[string]string{"site": "s1", "role": "edge", "rack": "r7"}}
@@ -77,7 +82,7 @@ func universe(three bool) []loadOp {
 		}
 	}
 	base := func() *tpb.Configuration {
-		return &tpb.Configuration{Request: map[string]*gpb.SubscribeRequest{"r1": request("A")}, Target: map[string]*tpb.Target{"t1": {Addresses: []string{"x"}, Request: "r1", Meta: map[string]string{"site": "s1", "role": "edge", "rack": "r7"}}}}
+		return &tpb.Configuration{Request: map[string]*gpb.SubscribeRequest{"r1": request("A")}, Target: map[string]*tpb.Target{tnames[0]: {Addresses: []string{"x"}, Request: "r1", Meta: map[string]string{"site": "s1", "role": "edge", "rack": "r7"}}}}
 	}
 	shapes = append(shapes,
 		loadOp{name: "nil configuration", cfg: func() *tpb.Configuration { return nil }},
@@ -86,11 +91,11 @@ func universe(three bool) []loadOp {
 			c.Target[""] = &tpb.Target{Addresses: []string{"x"}, Request: "r1"}
 			return c
 		}},
-		loadOp{name: "invalid: nil target", cfg: func() *tpb.Configuration { c := base(); c.Target["t2"] = nil; return c }},
-		loadOp{name: "invalid: no address", cfg: func() *tpb.Configuration { c := base(); c.Target["t2"] = &tpb.Target{Request: "r1"}; return c }},
+		loadOp{name: "invalid: nil target", cfg: func() *tpb.Configuration { c := base(); c.Target[tnames[1]] = nil; return c }},
+		loadOp{name: "invalid: no address", cfg: func() *tpb.Configuration { c := base(); c.Target[tnames[1]] = &tpb.Target{Request: "r1"}; return c }},
 		loadOp{name: "invalid: empty request", cfg: func() *tpb.Configuration {
 			c := base()
-			c.Target["t2"] = &tpb.Target{Addresses: []string{"x"}}
+			c.Target[tnames[1]] = &tpb.Target{Addresses: []string{"x"}}
 			return c
 		}},
 	)
@@ -431,9 +436,22 @@ func (harness) Specs(tier string) []seqmc.Spec {
 	if tier == "thorough" {
 		// every (validity, revision relation) class of rejected loads remembered on
 		// the 2-target universe; the 3-target universe with the quick memory
-		return append(append(mk("2 targets, full rejected-load memory", universe(false), true), mk("3 targets", universe(true), false)...), exSpec)
+		sharedOps := universe(false, "r1", "r2", "t3")
+		var sharedNames []string
+		for _, o := range sharedOps {
+			sharedNames = append(sharedNames, o.name)
+		}
+		sharedSpec := seqmc.Spec{Name: "from NewConfig 2 targets NAMED LIKE the requests r1, r2 (closure)", Ops: sharedNames, Depth: 30, New: func() seqmc.Sys { fullMemory = false; return newSys(sharedOps, false, false) }}
+		return append(append(append(mk("2 targets, full rejected-load memory", universe(false), true), mk("3 targets", universe(true), false)...), sharedSpec), exSpec)
 	}
-	return append(mk("2 targets", universe(false), false), exSpec)
+	// target names that are also request names (per-device requests named after the device)
+	sharedOps := universe(false, "r1", "r2", "t3")
+	var sharedNames []string
+	for _, o := range sharedOps {
+		sharedNames = append(sharedNames, o.name)
+	}
+	sharedSpec := seqmc.Spec{Name: "from NewConfig 2 targets NAMED LIKE the requests r1, r2 (closure)", Ops: sharedNames, Depth: 30, New: func() seqmc.Sys { fullMemory = false; return newSys(sharedOps, false, false) }}
+	return append(append(mk("2 targets", universe(false), false), sharedSpec), exSpec)
 }
 
 func main() { seqmc.Main(harness{}) }
